@@ -76,7 +76,7 @@ class C17(Check):
         "%-args, '<5>'-looking and JSON-looking text; all seven levels; tags absent / empty / several; exception traces) logged by 1-4 producer tasks at planned "
         "instants x file level DEBUG/TRACE x consumer lag {keeps up, k records per tick, nothing until close} x close instant anywhere (immediately, with records "
         "still queued, with producers still logging afterwards) x reader modes {forward, len, reverse, offset k in {0,1,n-1,-1,-k,-n,-(n+3)}, priority threshold "
-        "by every level, hr --head/--tail/-r with n in {0,1,n-1,n,n+1,100}} x containers {.zst, .gz, plain}. non-trivial = records were still queued when the "
+        "by every level, hr --head/--tail/-r with n in {0,1,n-1,n,n+1,100}} x containers {.zst, .gz, plain, plain without the '<prio>' prefix, plain with the prefix on a drawn subset of lines}. non-trivial = records were still queued when the "
         "handler was closed, or records were logged after the close; distinct = (lag mode, close position class, length class, text classes)."
     )
     assumptions = [
@@ -200,7 +200,17 @@ class C17(Check):
         with gzip.open(gz, "wb") as f:
             f.write(raw)
         rng = rng_for(plan["modes_seed"], "modes")
-        containers = [("zst", logpath), ("gz", gz), ("plain", plain)]
+        # the same records without the '<prio>' line prefix, and with the prefix on a drawn subset of the lines only
+        lines = raw.splitlines(keepends=True)
+
+        def strip_prefix(line: bytes) -> bytes:
+            return line[line.index(b">") + 1 :] if line.startswith(b"<") else line
+
+        noprefix = tmp / "noprefix.json"
+        noprefix.write_bytes(b"".join(strip_prefix(l) for l in lines))
+        mixed = tmp / "mixed.json"
+        mixed.write_bytes(b"".join(strip_prefix(l) if rng.random() < 0.5 else l for l in lines))
+        containers = [("zst", logpath), ("gz", gz), ("plain", plain), ("plain-without-prefix", noprefix), ("plain-mixed-prefix", mixed)]
         tzinfo = glog.tz
 
         def key(rec: Any) -> tuple[Any, ...]:
